@@ -110,6 +110,37 @@ CHECKS["C02"] = dict(
     technique="Lean 4 proof of the column-resolution layer + differential correspondence of complete column path sets on Lean-rendered SQL",
 )
 
+CHECKS["C07"] = dict(
+    category="proof",
+    text="Lean theorems, for all inputs, about the layers the extractors put between sqlfluff's tree and their own logic: "
+         "list_child_segments (plain, set-expression and bracketed/iter_segments branches), extract_identifier, merge's segments[i+1] "
+         "and the repaired SqlFluffTable.of do not see whitespace / comment / meta segments inserted between the children of a "
+         "segment (negligible_filter, extractIdentifier_noise, nextSegment_noise, tableParts_noise) nor at any depth of the tree "
+         "(negligible_filter_deep, layout_irrelevant, strip_insertNoise); raw_upper matching of every keyword of the regenerated "
+         "tables ignores letter case (keyword_match_case, keyword_match_iff); escape_identifier_name is case-insensitive on unquoted "
+         "names and maps a lower-case name and its quoted forms (each regenerated quote char, brackets) alike "
+         "(escape_case_insensitive, escape_quote_lowercase); pieces without code are dropped by helpers.split (trailing_semicolons); "
+         "the model's statement analysis depends on the rendering's keyword case only through rendered raw texts "
+         "(render_case_irrelevant*, Spec.reads/writes independent of it); witness dev_D30 for the code before the repair. "
+         "Metamorphic differential implementation-vs-implementation on generated statements (Lean-rendered), MERGE/UPDATE/COPY/script "
+         "templates and the harvested corpus (repo tests + TPC-DS) under token-level rewrites: every inter-token gap x {space, newline, "
+         "tab, block comment with ';', line comment with ';'}, keyword / function / unquoted-identifier case x {upper, lower, mixed}, "
+         "quoting of lower-case identifiers with the dialect's quote styles, 0-3 trailing semicolons; tables compared exactly, column "
+         "paths after masking only subquery_<hash> and display names of un-aliased expressions; failing pairs delta-debugged to a "
+         "minimal rewrite set and classified; direct correspondences of the Lean layers with the code (list_child_segments / "
+         "is_negligible / SqlFluffTable.of on real trees, escape_identifier_name bounded-exhaustive, helpers.split on all scripts of "
+         "<= 5/6 tokens)",
+    design_ref="DESIGN.md §5 C07",
+    note=TB + ". partial: sqlfluff's lexer/parser are not modelled; the theorems cover the normalisation and filtering layers, the rest "
+         "is the metamorphic differential. Which rewrites are eligible is decided with the dialect's own parser; a variant it rejects "
+         "is a rejection. Known findings D30 (T-SQL gaps inside a qualified table name; fix prepared), D31 (gap inside `t. *`), D32 "
+         "(third party: gap at the dot of a qualified column re-read as field access), D33 (subquery identity by raw text), D34 "
+         "(scalar subquery re-analysed by the sqlparse analyzer: `f (x)`). The `non-validating` dialect and metadata providers are "
+         "not part of the differential.",
+    technique="Lean 4 proof over a hand-written model of the filtering / normalisation layers + metamorphic differential "
+              "(implementation vs implementation under token-level rewrites) + direct differential correspondences of the model",
+)
+
 NOT_YET = "machinery not built yet (build phase in progress, see DESIGN.md §9)"
 
 
